@@ -407,6 +407,7 @@ type targetInfo struct {
 	Doc          string            `json:"doc,omitempty"`
 	Dependencies map[string]string `json:"dependencies,omitempty"`
 	Data         string            `json:"stamp,omitempty"`
+	Run          string            `json:"run,omitempty"`
 	Rerun        bool              `json:"rerun,omitempty"`
 }
 
